@@ -1754,9 +1754,41 @@ def _held_forms(kind, value):
             out += [('dict view', 'dict.fromkeys(v).keys()')]
     elif kind == 'mapping':
         out += [('dict', 'dict(v)'), ('Mapping that is not a dict', '__import__("collections").ChainMap({}, dict(v))')]
+    elif kind == 'nxgraph':           # v = (nodes, edges[, node attributes]): a networkx graph the caller keeps (GraphLike / `lattice`)
+        out += [('networkx Graph', 'nxg(v)'), ('networkx Graph with node / edge / graph attributes', 'nxg(v, True)'), ('frozen networkx Graph', '__import__("networkx").freeze(nxg(v))')]
+    elif kind == 'nxedges':           # the edges of a networkx graph: the EdgeView itself (documented usage `G.edges`)
+        out += [('networkx EdgeView', 'nxg((sorted({x for e in v for x in e}, key=repr), v)).edges')]
+    elif kind == 'nxnodes':
+        out += [('networkx NodeView', 'nxg((v, [])).nodes')]
     return out
 
 
+def nxg(v, attrs=False):
+    import networkx as nx
+    g = nx.Graph()
+    g.add_nodes_from(v[0]); g.add_edges_from(v[1])
+    for name, vals in (v[2] if len(v) > 2 else {}).items():
+        nx.set_node_attributes(g, values=vals, name=name)
+    if attrs:
+        for i, n in enumerate(g.nodes): g.nodes[n]['weight'] = float(i)
+        for i, e in enumerate(g.edges): g.edges[e]['bias'] = -1.0 - i
+        g.graph['name'] = 'kept by the caller'
+    return g
+
+
+NXG_SRC = '''
+def nxg(v, attrs=False):
+    import networkx as nx
+    g = nx.Graph()
+    g.add_nodes_from(v[0]); g.add_edges_from(v[1])
+    for name, vals in (v[2] if len(v) > 2 else {}).items():
+        nx.set_node_attributes(g, values=vals, name=name)
+    if attrs:
+        for i, n in enumerate(g.nodes): g.nodes[n]['weight'] = float(i)
+        for i, e in enumerate(g.edges): g.edges[e]['bias'] = -1.0 - i
+        g.graph['name'] = 'kept by the caller'
+    return g
+'''
 SNAP_SRC = r"""
 def snap(o):
     # a value that is equal before and after iff the object (and what it holds) is unchanged, dtype / flags / order included
@@ -1765,6 +1797,10 @@ def snap(o):
         return ('ndarray', o.dtype.str, o.shape, o.strides, bool(o.flags.writeable), repr(o.tolist()))
     if isinstance(o, (list, tuple)):
         return (type(o).__name__, [snap(x) for x in o])
+    if hasattr(o, 'adj') and hasattr(o, 'nodes') and hasattr(o, 'graph'):      # a networkx graph: nodes, edges, all attribute dicts, in order
+        return (type(o).__name__, repr(list(o.nodes(data=True))), repr(list(o.edges(data=True))), repr(dict(o.graph)), repr({n: list(o.adj[n]) for n in o.adj}))
+    if type(o).__name__ in ('EdgeView', 'NodeView', 'EdgeDataView', 'NodeDataView'):
+        return (type(o).__name__, repr(list(o)))
     if isinstance(o, (abc.KeysView, abc.ValuesView)):
         return (type(o).__name__, [snap(x) for x in o])
     if isinstance(o, abc.ItemsView):
@@ -1789,11 +1825,11 @@ def forms_cases(ctx, r):
     from dimod.generators.bpsp import binary_paint_shop_problem
     from dimod.generators.satisfiability import random_kmcsat
     from dimod.generators.chimera import chimera_anticluster
-    from dimod.generators.wireless import mimo
-    env0 = {'G': G, 'np': np, 'dimod': dimod, 'binary_paint_shop_problem': binary_paint_shop_problem, 'random_kmcsat': random_kmcsat,
+    from dimod.generators.wireless import mimo, coordinated_multipoint
+    env0 = {'coordinated_multipoint': coordinated_multipoint, 'nxg': nxg, 'G': G, 'np': np, 'dimod': dimod, 'binary_paint_shop_problem': binary_paint_shop_problem, 'random_kmcsat': random_kmcsat,
             'chimera_anticluster': chimera_anticluster, 'mimo': mimo}
     imports = ('from dimod.generators.bpsp import binary_paint_shop_problem\nfrom dimod.generators.satisfiability import random_kmcsat\n'
-               'from dimod.generators.chimera import chimera_anticluster\nfrom dimod.generators.wireless import mimo\nfrom numpy import array\n')
+               'from dimod.generators.chimera import chimera_anticluster\nfrom dimod.generators.wireless import mimo, coordinated_multipoint\nfrom numpy import array\n')
 
     def run_call(call, args, subst):
         """evaluate `call` (an expression over the argument names) with each name bound to its list form, except those in
@@ -1867,7 +1903,7 @@ def forms_cases(ctx, r):
             with warnings.catch_warnings():
                 warnings.simplefilter('ignore')
                 for an, val in args.items():
-                    env[an] = eval(combo[an][1], {'v': val, 'np': np}) if an in combo else val
+                    env[an] = eval(combo[an][1], {'v': val, 'np': np, 'nxg': nxg}) if an in combo else val
             before = {an: snap(env[an]) for an in args}
             outs, after = [], dict(before)
             for _k in range(2):
@@ -1887,7 +1923,7 @@ def forms_cases(ctx, r):
             bind = ''.join(f'v = {an}_list; {an} = ' + (combo[an][1] if an in combo else 'v') + '\n' for an in args)
             model_eq = ('def same(a, b): return (a.is_equal(b) and list(a.variables) == list(b.variables)) if isinstance(a, dimod.ConstrainedQuadraticModel) else '
                         '(a.vartype is b.vartype and list(a.variables) == list(b.variables) and coef(a) == coef(b))\n')
-            head = HDR + imports + SNAP_SRC + model_eq + binds
+            head = HDR + imports + SNAP_SRC + NXG_SRC + model_eq + binds
             changed = [an for an in args if before[an] != after[an]]
             m1, m2 = outs
             def same(a, b):
@@ -1905,7 +1941,7 @@ def forms_cases(ctx, r):
                          f'{call} with {forms_txt} of {args!r}: first {m1 if isinstance(m1, Exception) else (coef(m1) if not isinstance(m1, dimod.ConstrainedQuadraticModel) else canon_cqm(m1))!r:.500}, '
                          f'second {m2 if isinstance(m2, Exception) else (coef(m2) if not isinstance(m2, dimod.ConstrainedQuadraticModel) else canon_cqm(m2))!r:.500}',
                          repro=head + bind + f'a = {call}\nb = {call}\nassert same(a, b), "two calls with the same argument objects give different models"\n')
-            elif not same(m1, ref if ref is not None else ref_err):
+            elif not any(kinds[an].startswith('nx') for an in combo) and not same(m1, ref if ref is not None else ref_err):
                 bad = [an for an in combo if combo[an][0] not in ('list',)]
                 alone = []              # the arguments whose form alone (fresh object, the others as lists) already changes the model
                 for an in bad:
@@ -1973,6 +2009,19 @@ def forms_cases(ctx, r):
                              ('doped', f'G.doped(0.5, (gnodes, gedges), seed={seed})'),
                              ('frustrated_loop', f'G.frustrated_loop((gnodes, gedges), 2, seed={seed})')):
             one(gname, gcall, dict(gnodes=gnodes, gedges=gedges), dict(gnodes='collection', gedges='collection'))
+        # the same graphs as networkx objects the caller keeps (GraphLike): unchanged, attributes included; two calls agree
+        for gname, gcall in (('uniform', f'G.uniform(graph, "SPIN", low=-2.0, high=2.0, seed={seed})'), ('randint', f'G.randint(graph, "BINARY", low=-3, high=3, seed={seed})'),
+                             ('ran_r', f'G.ran_r(3, graph, seed={seed})'), ('power_r', f'G.power_r(3, graph, seed={seed})'), ('doped', f'G.doped(0.5, graph, seed={seed})'),
+                             ('frustrated_loop', f'G.frustrated_loop(graph, 2, seed={seed})')):
+            one(gname, gcall, dict(graph=(gnodes, gedges)), dict(graph='nxgraph'))
+        one('maximum_independent_set', 'G.maximum_independent_set(edges, nodes, strength=2.5)', dict(edges=edges, nodes=some_nodes), dict(edges='nxedges', nodes='nxnodes'))
+        one('maximum_weight_independent_set', 'G.maximum_weight_independent_set(edges, nodes)', dict(edges=edges, nodes=weighted), dict(edges='nxedges'))
+        if rep % 2 == 0:
+            cn = r.randint(1, 3)
+            cedges = [e for e in itertools.combinations(range(cn), 2) if r.random() < .6]
+            cattrs = {'num_transmitters': {v: r.randint(1, 2) for v in range(cn)}, 'num_receivers': {v: r.randint(1, 2) for v in range(cn)}} if r.random() < .5 else {}
+            one('coordinated_multipoint', f'coordinated_multipoint(lattice, "BPSK", F_distribution=("binary", "real"), seed={seed})',
+                dict(lattice=(list(range(cn)), cedges, cattrs)), dict(lattice='nxgraph'))
         planted = [(v, r.choice([-1, 1])) for v in gnodes]
         one('frustrated_loop', f'G.frustrated_loop((gnodes, gedges), 2, seed={seed}, planted_solution=dict(planted) if isinstance(planted, list) else planted)',
             dict(gnodes=gnodes, gedges=gedges, planted=planted), dict(planted='mapping'))
